@@ -7,6 +7,8 @@ def _keval(pid):
     def run(tier):
         from . import keval
 
+        if pid == "C03":
+            return keval.run(pid, tier, extra=keval.assemble_support_extra(tier))
         return keval.run(pid, tier)
 
     return run
